@@ -1,6 +1,7 @@
 package lsm
 
 import (
+	"os"
 	"testing"
 
 	"pgregory.net/rapid"
@@ -67,7 +68,14 @@ func runProp(t *testing.T, d propDef) {
 	core.Run(t, d.id, d.part, d.rule,
 		func(rt *rapid.T) Program { return GenProgram(rt, d.cfg) },
 		func(p Program, rec *evid.Rec) (core.Result, error) {
-			in, err := Run(p, d.setup)
+			setup := d.setup
+			if os.Getenv("VERIF_STRICT") != "" { // development aid: hunt for witnesses of known findings
+				setup = strictSetup
+				if os.Getenv("VERIF_STRICT") == "stale" {
+					setup = func(in *Interp) { in.StrictStale = true }
+				}
+			}
+			in, err := Run(p, setup)
 			res := core.Result{Classes: classesOf(in.St, p), Excluded: in.St.Excluded}
 			if d.nontrivial != nil {
 				res.NonTrivial = d.nontrivial(in.St, p)
@@ -232,5 +240,34 @@ func TestC19_BloomDB(t *testing.T) {
 				}
 			}},
 		nontrivial: func(s Stats, p Program) bool { return s.TablesMax >= 3 },
+	})
+}
+
+// ---- known-finding witnesses: the same interpreter with every exclusion switched off -----------------
+
+func strictSetup(in *Interp) { in.Strict = true }
+
+// TestKF_Strict replays a saved program in Strict mode (no known-finding exclusions). It is only
+// used through replay files under replays/<id>/known/.
+func TestKF_Strict(t *testing.T) {
+	if !core.Replaying() {
+		t.Skip("witness runner: replay only")
+	}
+	runProp(t, propDef{id: "KF", part: "witness", rule: "witness replay", cfg: GenCfg{Weights: map[string]int{"flush": 1}, MinOps: 1, MaxOps: 1}, setup: strictSetup})
+}
+
+var wGC = map[string]int{"churn": 8, "txn": 6, "begin": 4, "get": 4, "gethold": 3, "itemread": 3, "iter": 4, "iterdrain": 2, "del": 3, "set": 2, "commit": 3,
+	"flush": 3, "compact": 5, "gc": 6, "fill": 2, "reopen": 1, "clock": 1, "discardts": 1}
+
+func TestC15_ValueLogGC(t *testing.T) {
+	runProp(t, propDef{id: "C15", part: "gc",
+		rule: "rapid-generated programs built around value log GC: 'churn' macros (values above the threshold written, overwritten or deleted, flushed and compacted so that discard statistics exist, with ValueLogMaxEntries 3..50 forcing file rotation) followed by RunValueLogGC with generated discard ratios, interleaved with commits, deletes, TTL expiry, flushes, picker-driven compactions, re-opens, and with iterators and Get items held open across the GC. Every read before and after is compared with the model (deleted keys must stay deleted after any later compaction/re-open; values of held iterator items must stay readable). Non-trivial = >=1 RunValueLogGC call really rewrote and removed a file and reads followed it.",
+		cfg:        GenCfg{DB: dbx.GenCfg{AllowManaged: true, AllowEnc: true, KeepVersions: []int{1, 2, 0}}, MinOps: 10, MaxOps: 50, Weights: wGC, Hold: true, TTL: true, BigValues: true,
+			FixSpec: func(s *dbx.Spec) {
+				if s.ValueLogMaxEntries > 50 {
+					s.ValueLogMaxEntries = 5
+				}
+			}},
+		nontrivial: func(s Stats, p Program) bool { return s.GCRewrites > 0 },
 	})
 }
